@@ -58,8 +58,8 @@ var hSubKeys = []string{"size", "align", "poly", "fmt", "size2", "al"}
 var hSubVals = map[string][]string{
 	"size":  {"1", "2", "10", "100", "1k", "1Ki", "64", "1M", "abc", "NaN", "010", "0100"},
 	"align": {"0", "1", "2"},
-	"poly":  {"IEEE", "Castagnoli", "Koopman"},
-	"fmt":   {"json", "gob", "xml"},
+	"poly":  {"IEEE", "Castagnoli", "Koopman", "x86-64", "x86-32", "x86"}, // "-digits" inside a name is a GOMAXPROCS suffix only at its very end
+	"fmt":   {"json", "gob", "xml", "v-1", "v-2"},
 	"size2": {"7", "8", "9"},  // a key that has the projected key "size" as a strict prefix
 	"al":    {"p", "q"},       // a strict prefix of "align"
 }
@@ -280,6 +280,24 @@ type hProj struct {
 	keys     []Key // distinct keys in creation order
 	tuples   map[Key]map[string]string // field name -> value (positions shift as .config grows)
 	rank     map[string]map[string]int // flat field name -> value -> first-observation rank
+	held     []hHeld                   // slices returned by ProjectValues that the caller kept
+}
+
+type hHeld struct {
+	got  []Key // the slice as returned
+	want []Key // its elements at the time
+	desc string
+}
+
+// checkHeld: keys handed out earlier are values; projecting further results must not change them.
+func (hp *hProj) checkHeld(c *hCheck) {
+	for _, h := range hp.held {
+		for i := range h.want {
+			if h.got[i] != h.want[i] {
+				c.r.Fail("key-identity", "returned-keys-changed", "%s projection %q: the keys ProjectValues returned for %s were %v and read %v after later results were projected", c.label, hp.expr.text, h.desc, h.want, h.got)
+			}
+		}
+	}
 }
 
 func newHProj(e hExpr) *hProj {
@@ -834,7 +852,47 @@ func hRun(t *testing.T, r *sim.Run, prop string) {
 	jointByKeys, jointByInfo := map[string]string{}, map[string]string{}
 	projected := 0
 	var lastH *hResult
+	// nsfCheck calls NonSingularFields on a drawn multiset of a projection's keys and compares with the model
+	nsfCheck := func(hp *hProj, check bool) {
+		if len(hp.keys) < 2 {
+			return
+		}
+		m := 2 + T.Intn(5, "nsf-n")
+		var sub []Key
+		for i := 0; i < m; i++ {
+			sub = append(sub, hp.keys[T.Intn(len(hp.keys), "nsf-key")])
+		}
+		fl := hp.flat()
+		var want []string
+		for _, f := range fl {
+			base := hp.tuples[sub[0]][f.name]
+			for _, k := range sub[1:] {
+				val := hp.tuples[k][f.name]
+				if val != base {
+					want = append(want, f.name)
+					break
+				}
+			}
+		}
+		var got []string
+		for _, f := range NonSingularFields(sub) {
+			got = append(got, f.Name)
+		}
+		if check && strings.Join(got, ",") != strings.Join(want, ",") {
+			r.Fail("nonsingular", "fields-differ", "projection %q: NonSingularFields(%v) = %v, fields on which the tuples differ: %v", hp.expr.text, sub, got, want)
+		}
+	}
 	for ri := 0; ri < nres; ri++ {
+		if ri > 0 && T.Intn(12, "nsf-midstream") == 0 {
+			// a reader in mid-stream: NonSingularFields and Key.String between two projected results
+			for _, hp := range append(append([]*hProj(nil), insts[0].projs...), insts[0].residue) {
+				nsfCheck(hp, prop == "C08")
+				if len(hp.keys) > 0 {
+					_ = hp.keys[T.Intn(len(hp.keys), "string-key")].String()
+				}
+			}
+			r.Hit("NonSingularFields called between two projected results")
+		}
 		if universe < len(hCfgKeys) && T.Intn(6, "grow") == 0 {
 			universe++
 			r.Hit("configuration key universe grew mid-stream")
@@ -879,6 +937,12 @@ func hRun(t *testing.T, r *sim.Run, prop string) {
 					keys := hp.proj.ProjectValues(res)
 					if len(keys) != len(res.Values) {
 						r.Fail("key-identity", "projectvalues-length", "ProjectValues returned %d keys for %d values", len(keys), len(res.Values))
+					}
+					if prop == "C08" {
+						hp.checkHeld(c)
+						if len(hp.held) < 6 && T.Intn(4, "hold-keys") == 0 {
+							hp.held = append(hp.held, hHeld{keys, append([]Key(nil), keys...), fmt.Sprintf("result %d (%q)", ri, h.name)})
+						}
 					}
 					for vi, k := range keys {
 						hp.observe(c, w, h, k, res.Values[vi].Unit)
@@ -1010,34 +1074,16 @@ func hRun(t *testing.T, r *sim.Run, prop string) {
 		}
 		// (5) NonSingularFields
 		for _, hp := range all {
-			if len(hp.keys) < 2 {
-				continue
-			}
-			m := 2 + T.Intn(5, "nsf-n")
-			var sub []Key
-			for i := 0; i < m; i++ {
-				sub = append(sub, hp.keys[T.Intn(len(hp.keys), "nsf-key")])
-			}
+			nsfCheck(hp, true)
+		}
+		// ... after which the projections' field lists and every key still read as before
+		for _, hp := range all {
 			fl := hp.flat()
-			var want []string
-			for fi, f := range fl {
-				_ = fi
-				base := hp.tuples[sub[0]][f.name]
-				for _, k := range sub[1:] {
-					val := hp.tuples[k][f.name]
-					if val != base {
-						want = append(want, f.name)
-						break
-					}
-				}
+			c := &hCheck{r: r, prop: prop, label: "[after NonSingularFields]"}
+			for _, k := range hp.keys {
+				hp.checkGet(c, k, fl, hp.tuples[k])
 			}
-			var got []string
-			for _, f := range NonSingularFields(sub) {
-				got = append(got, f.Name)
-			}
-			if strings.Join(got, ",") != strings.Join(want, ",") {
-				r.Fail("nonsingular", "fields-differ", "projection %q: NonSingularFields(%v) = %v, fields on which the tuples differ: %v", hp.expr.text, sub, got, want)
-			}
+			hp.checkHeld(c)
 		}
 	} else {
 		// concurrent readers: after all results have been projected, Less/SortKeys may be called from
@@ -1045,6 +1091,13 @@ func hRun(t *testing.T, r *sim.Run, prop string) {
 		// Runs before any sequential sort so that lazily built state is still cold.
 		type sorted struct{ seq [][]Key }
 		var got []*sorted
+		if T.Intn(3, "readers-first") == 0 {
+			// other readers of the same projections come first (what they build lazily is warm afterwards)
+			for _, hp := range all {
+				nsfCheck(hp, false)
+			}
+			r.Hit("NonSingularFields called before the keys are sorted")
+		}
 		if T.Intn(3, "concurrent-lane") == 0 {
 			coldTail()
 			sim.ResetProcessState() // concurrent callers start with cold package-level caches
